@@ -677,6 +677,11 @@ class Parser:
                             break
                     # ignore the 'signed' prefix below, and reorder the others
                     newnames = []
+                    if 'signed' in prefixes and (
+                            prefixes['signed'] > 1 or 'unsigned' in prefixes
+                            or names not in ([], ['int'], ['char'])):
+                        # keep it: reported as "Unsupported type" below
+                        newnames.extend(['signed'] * prefixes['signed'])
                     for prefix in ('unsigned', 'short', 'long'):
                         for i in range(prefixes.get(prefix, 0)):
                             newnames.append(prefix)
